@@ -994,11 +994,13 @@ def _tostring(
         elem: ET.Element, level: int, short_empty_elements: bool = True
 ) -> str:
     _indent(elem, level)
-    return ('  ' * level) + ET.tostring(
+    xml = ET.tostring(
         elem,
         encoding='unicode',
         short_empty_elements=short_empty_elements
     )
+    # a literal carriage return in text content is read back as a line feed
+    return ('  ' * level) + xml.replace('\r', '&#13;')
 
 
 def _indent(elem: ET.Element, level: int) -> None:
